@@ -158,7 +158,7 @@ def run_symtab(idx, rng, sh):
     E = '<' if le else '>'
     machine = rng.choice([62, 3, 40, 183, 8, 21, 2])
     n = rng.choice([0, 1, 2, 10, 60, 300])
-    names = [rng.choice([b'', b'dup', b'dup', 'ünï'.encode('utf-8'), b'x' * rng.choice([63, 64, 65, 70, 127, 128, 129, 192, 256]), ('s%d' % i).encode(), b'a.b', b'\xff\xfe']) for i in range(n)]
+    names = [rng.choice([b'', b'dup', b'dup', 'ünï'.encode('utf-8'), 'größe_init'.encode('utf-8'), b'init', 'größe_init'.encode('utf-8'), b'it', b'x' * rng.choice([63, 64, 65, 70, 127, 128, 129, 192, 256]), ('s%d' % i).encode(), b'a.b', b'\xff\xfe']) for i in range(n)]
     if names:
         names[0] = b''
     tab, offs = elfgen.strtab(names, share_suffixes=rng.random() < 0.5)
